@@ -1,6 +1,7 @@
 import Lemmas.Dict
 import Lemmas.Except
 import Generated.KeyDefaults
+import Props.C12
 /-!
 # C13 — thumbprints are the RFC 7638 value and depend only on the public key
 -/
@@ -174,5 +175,38 @@ theorem c13_keyset_kids (P : Prims) (K : KeyEnv) (ks ks' : List Key) (h : keySet
     | succ j =>
       simp only [List.getElem_cons_succ]
       exact hall j (by simpa using hi) (by simpa using hi')
+
+end Jose.C13
+
+namespace Jose.C13
+
+/-- **Exports show the kid**: once `ensure_kid` has run, every export form of the key carries the kid — the public form
+too, because `kid` is not a private member of any key type (kernel-decided for the regenerated tables below); an export is
+a function of the key's current members, never of an earlier export (seeded change `C13-g` cached one). -/
+theorem c13_export_shows_kid (P : Prims) (K : KeyEnv) (T : KeyTables) (k k' : Key) (h : ensureKid P K k = .ok k')
+    (hpub : T.isPrivateParam k'.kty "kid" = false) (priv : Option Bool) (d : Dict) (hd : k'.asDict T priv [] = .ok d) :
+    d.get? "kid" = k'.dict.get? "kid" ∧ (k'.dict.get? "kid").isSome = true := by
+  have hsome : (k'.dict.get? "kid").isSome = true := by
+    unfold ensureKid at h
+    by_cases hc : k.dict.contains "kid" = true
+    · simp [hc] at h; subst h; simpa [Dict.contains] using hc
+    · simp [hc] at h
+      obtain ⟨t, _, rfl⟩ := h
+      simp [Dict.get?_set_self]
+  refine ⟨?_, hsome⟩
+  cases priv with
+  | none =>
+    simp [Key.asDict, Dict.update_nil] at hd
+    rw [← hd]
+  | some b =>
+    cases b with
+    | true =>
+      unfold Key.asDict at hd
+      split at hd
+      · cases hd
+      · simp [Dict.update_nil] at hd; rw [← hd]
+    | false => exact C12.c12_as_dict_public_keeps T k' d hd "kid" hpub
+
+theorem c13_kid_is_public : ∀ kty ∈ Generated.keyTypes, Generated.keyTables.isPrivateParam kty "kid" = false := by decide
 
 end Jose.C13
